@@ -41,6 +41,7 @@ PROFILE = gen.profile(
   actuators=2,
   act_kinds=("motor", "position", "general"),
   p_massless=0.1,
+  p_fluid_ellipsoid=0.35,
   act_ball=False,  # ball/free-joint servos are C03's subject (MuJoCo 3.13 wraps their position error)
 )
 
@@ -127,7 +128,10 @@ def run_case(case):
     Mref = mw.dense_M(mjm, ref["M"])
     x = np.asarray(got["qacc_smooth"][w], dtype=np.float64)[: mjm.nv]
     rec.check()
-    if not np.all(np.isfinite(x)):
+    if np.abs(ref["qacc_smooth"]).max() > 1e7 * max(1.0, np.abs(ref["qfrc_smooth"]).max()):
+      rec.inconcl("inertia matrix numerically singular in the reference (e.g. two parallel slide joints on one body)")
+      rec.count("singular_M")
+    elif not np.all(np.isfinite(x)):
       rec.viol("qacc_smooth:nonfinite", f"qacc_smooth not finite world {w}")
     else:
       res = np.abs(Mref @ x - ref["qfrc_smooth"]).max()
@@ -152,7 +156,7 @@ def run_case(case):
 def requirements(agg, tier):
   unmet = []
   feats = set(agg["cover"].get("features", []))
-  for f in ["spring", "damping", "armature", "gravcomp", "fluid", "tendon_spring", "tendon_damping", "tendon_armature"]:
+  for f in ["spring", "damping", "armature", "gravcomp", "fluid", "fluid_ellipsoid", "tendon_spring", "tendon_damping", "tendon_armature"]:
     if f not in feats:
       unmet.append(f"feature never generated: {f}")
   for c in ["nv<=6", "nv<=32", "nv<=64", "nv>64"]:
